@@ -86,13 +86,18 @@ Cells(g) == { g.traits[i].c : i \in DOMAIN g.traits } \cup { g.traits[i].pc : i 
             \cup { g.genes[i].c : i \in DOMAIN g.genes } \cup { g.genes[i].lc : i \in DOMAIN g.genes }
             \cup { g.mods[i].c : i \in DOMAIN g.mods } \cup { g.mods[i].nc : i \in DOMAIN g.mods }
 
+(* identities a projected genome REFERS to: gene endpoints and traits, node traits, the id index *)
+Refs(g) == ({ g.genes[i].sc : i \in DOMAIN g.genes } \cup { g.genes[i].dc : i \in DOMAIN g.genes }
+            \cup { g.genes[i].tc : i \in DOMAIN g.genes } \cup { g.nodes[i].tc : i \in DOMAIN g.nodes }
+            \cup { g.nodes[i].lk : i \in DOMAIN g.nodes }) \ {0}
+
 (* ---------------------------------------------------------------- Part 2 *)
 (* C06: equal in every genetic respect apart from the id, sharing no mutable state *)
 ModsG(g) == [i \in DOMAIN g.mods |-> [inn |-> g.mods[i].inn, mut |-> g.mods[i].mut, en |-> g.mods[i].en, nid |-> g.mods[i].nid,
                                        act |-> g.mods[i].act, tr |-> g.mods[i].tr, ins |-> g.mods[i].ins, outs |-> g.mods[i].outs]]
 GenEq(a, b) == Abs(a) = Abs(b)
 GenEqM(a, b) == Abs(a) = Abs(b) /\ ModsG(a) = ModsG(b)
-IsDuplicate(c, g) == GenEqM(c, g) /\ Cells(c) \cap Cells(g) = {}
+IsDuplicate(c, g) == GenEqM(c, g) /\ Cells(c) \cap Cells(g) = {} /\ Refs(c) \cap Cells(g) = {}
 (* a spawned genome: the start genome's topology and flags, only w / mut differ and mut mirrors w *)
 IsSpawnOf(c, g) ==
     /\ TraitsG(c) = TraitsG(g) /\ NodesG(c) = NodesG(g) /\ Len(c.genes) = Len(g.genes)
